@@ -240,7 +240,14 @@ func (option *Option) IsSetDefault() bool {
 // if the specified value could not be converted to the corresponding option
 // value type.
 func (option *Option) Set(value *string) error {
-	kind := option.value.Type().Kind()
+	// A pointer to a slice or a map collects values like the slice or map itself
+	tp := option.value.Type()
+
+	for tp.Kind() == reflect.Ptr {
+		tp = tp.Elem()
+	}
+
+	kind := tp.Kind()
 
 	if (kind == reflect.Map || kind == reflect.Slice) && option.clearReferenceBeforeSet {
 		option.empty()
